@@ -100,13 +100,12 @@ def startbin(ctx, R="R-C06-startbin"):
             ctx.need(isinstance(v, ast.Tuple) and len(v.elts) == 2, R, "%s.get_truncated_response does not return a pair" % name)
             first = astq.text(v.elts[0]).replace(" ", "")
             if name in fc.VERTEX_BANKS:
-                ok = first == "left_idx"
-                defs = [n for n in f.body_nodes() if isinstance(n, ast.Assign) and astq.is_name(n.targets[0], "left_idx")]
-                src = astq.text(defs[0].value).replace(" ", "") if defs else ""
-                lname = "left" if name.startswith("Tri") else "left_hz"
-                ok = ok and src == "int(np.ceil(width*%s/self._rate))" % lname
+                ev0 = SymEval(prog, f, inline_props=False).run()
+                got = ev0.eval_at(r, v.elts[0])
+                want = S.call("int", S.call("ceil", S.truediv(S.mul(S.sym(f.params[2]), S.call("getitem", S.sym("self._vertices"), S.sym(f.params[1]))), S.sym("self._rate"))))
+                ok = S.compare(got, want, domain={})["verdict"] == "equal"
                 ctx.check(ok, R, f, r, "%s: the start bin is int(ceil(width * left vertex / rate)), within [0, width) because 0 <= vertex <= rate/2" % name,
-                          "%s start bin is %s = %s" % (name, first, src))
+                          "%s start bin is %s" % (name, S.show(got)[:120]))
             else:
                 ok = first in ("0", "left_idx%width")
                 ctx.check(ok, R, f, r, "%s: the start bin is reduced modulo width (or 0 for the whole period)" % name, "%s start bin is %s" % (name, first))
@@ -126,28 +125,42 @@ def _val_expr(prog, f, key_pred, seed=None):
 
 def same_formula(ctx, R="R-C06-same-formula"):
     prog = ctx.prog
+    from .c05 import _cond_equal
+    B = S.sym("BIN")
     for name in ("TriangularOverlappingFilterBank", "Fbank"):
         c = fc.bank(prog, name)
         full, tr = prog.own_method(c, "get_frequency_response"), prog.own_method(c, "get_truncated_response")
-        ef, lf = _val_expr(prog, full, None)
-        et, lt = _val_expr(prog, tr, None)
-        vf = ef.env.get("val")
-        vt = next((v for k, v in et.env.items() if k.startswith("res[")), None)
+        sf = fc.bin_stores(prog, full, {"half": False})
+        st = fc.bin_stores(prog, tr)
+        ctx.need(sf and st, R, "per-bin stores not found for %s" % name)
+        # primary stores: index depends on +BIN
+        pf = [x for x in sf if S.compare(x["index"], B, domain={})["verdict"] == "equal"]
+        ctx.need(pf, R, "%s.get_frequency_response does not store bin b at index b" % name)
+        rets = astq.returns_of(tr)
+        ctx.need(len(rets) == 1 and isinstance(rets[0].value, ast.Tuple) and len(rets[0].value.elts) == 2, R, "%s.get_truncated_response does not return a pair" % name)
+        start = st[0]["ev"].eval_at(rets[0], rets[0].value.elts[0])
+        pt = [x for x in st if S.compare(x["index"], S.sub(B, start), domain={})["verdict"] == "equal"]
+        ctx.check(len(pt) == len(st), R, tr, st[0]["stmt"], "%s: truncated bin b is stored at b - start, start being the first element returned" % name,
+                  "%s: a truncated store uses index %s, not b - %s" % (name, S.show([x for x in st if x not in pt][0]["index"])[:80] if len(pt) != len(st) else "", S.show(start)[:60]))
+        vf, vt = fc.piecewise(pf), fc.piecewise(pt)
         ctx.need(vf is not None and vt is not None, R, "per-bin values not found for %s" % name)
-        r = S.compare(vf, vt, domain={})
-        ctx.check(r["verdict"] == "equal", R, tr, lt, "%s: truncated and full responses evaluate a bin with the same closed form" % name,
+        # a square root applied to the returned array instead of each bin
+        def post(f_, v_):
+            for r_ in astq.returns_of(f_):
+                for x in ast.walk(r_.value):
+                    if isinstance(x, ast.BinOp) and isinstance(x.op, ast.Pow) and astq.text(x.right) in ("0.5", "1 / 2"):
+                        return S.power(v_, S.lift(Fraction(1, 2)))
+            return v_
+        vf, vt = post(full, vf), post(tr, vt)
+        ok = _cond_equal(vf, vt)
+        ctx.check(ok, R, tr, pt[0]["stmt"] if pt else tr.node, "%s: truncated and full responses evaluate a bin with the same closed form" % name,
                   "%s: the truncated response evaluates %s but the full one %s" % (name, S.show(vt)[:140], S.show(vf)[:140]))
-        # same bin bounds
-        for var in ("left_idx", "right_idx"):
-            a = [n for n in full.body_nodes() if isinstance(n, ast.Assign) and astq.is_name(n.targets[0], var)]
-            b = [n for n in tr.body_nodes() if isinstance(n, ast.Assign) and astq.is_name(n.targets[0], var)]
-            ok = len(a) == 1 and len(b) == 1 and astq.text(a[0].value) == astq.text(b[0].value)
-            ctx.check(ok, R, tr, b[0] if b else MISSING(tr.node), "%s: %s is computed identically in both methods" % (name, var),
-                      "%s: %s differs between get_frequency_response (%s) and get_truncated_response (%s)" % (
-                          name, var, astq.text(a[0].value) if a else None, astq.text(b[0].value) if b else None))
-        # index of the stored value: res[idx] vs res[idx - left_idx]
-        kt = [k for k in et.env if k.startswith("res[")]
-        ctx.check(len(kt) == 1 and "left_idx" in kt[0], R, tr, lt, "%s: truncated bin idx is stored at idx - left_idx" % name, "truncated store key is %s" % kt)
+        # same bins: both loops run over range(lo, min(size, hi + 1)) with the same lo / hi (size = width when half is False)
+        rf, rt = pf[0]["range"], pt[0]["range"] if pt else None
+        ok = rt is not None and cc.is_call(rf, "range") and cc.is_call(rt, "range") and len(rf.args) == len(rt.args) == 3 and \
+            S.compare(rf.args[1], rt.args[1], domain={})["verdict"] == "equal" and S.compare(rf.args[2], rt.args[2], domain={})["verdict"] == "equal"
+        ctx.check(ok, R, tr, pt[0]["loop"] if pt else tr.node, "%s: both methods visit the same bins ceil(width l / rate) .. min(width, floor(width r / rate) + 1)" % name,
+                  "%s: bin ranges differ: full %s, truncated %s" % (name, S.show(rf)[:100], S.show(rt)[:100] if rt is not None else None))
     # Gabor: full (half or not) and truncated responses accumulate the same closed form at omega = 2 pi (idx / width + period)
     from .c05 import gabor_norm
     gabor_norm(ctx, R)
@@ -179,23 +192,36 @@ def same_formula(ctx, R="R-C06-same-formula"):
 
 def hermitian(ctx, R="R-C06-hermitian"):
     prog = ctx.prog
+    B = S.sym("BIN")
     for name in ("TriangularOverlappingFilterBank", "Fbank"):
         f = prog.own_method(fc.bank(prog, name), "get_frequency_response")
-        st = [n for n in f.body_nodes() if isinstance(n, ast.Assign) and astq.eq_text(n.targets[0], "res[-idx]")]
-        ctx.check(len(st) == 1, R, f, f.node, "%s: one mirrored store res[-idx]" % name, "%s has %d mirrored stores" % (name, len(st)))
-        if len(st) != 1:
-            continue
-        pm = astq.parents(f)
-        g = [astq.text(a.test).replace(" ", "").replace("(", "").replace(")", "") for a in astq.ancestors(pm, st[0]) if isinstance(a, ast.If)]
-        ctx.check(g[:1] in (["nothalfandnotself._analytic"], ["notself._analyticandnothalf"], ["nothalforself._analytic"]), R, f, st[0], "%s: negative frequencies are filled iff the full spectrum of a real bank is requested" % name,
-                  "%s mirrored store is guarded by %s" % (name, g[:1]))
-        direct = [n for n in f.body_nodes() if isinstance(n, ast.Assign) and astq.eq_text(n.targets[0], "res[idx]")]
-        ok = len(direct) == 1 and astq.text(direct[0].value) == astq.text(st[0].value)
-        ctx.check(ok, R, f, st[0], "%s: the mirrored bin gets the same value as the direct bin (real, even response)" % name,
-                  "%s stores %s at res[idx] but %s at res[-idx]" % (name, astq.text(direct[0].value) if direct else None, astq.text(st[0].value)))
-        lp = [n for n in f.body_nodes() if isinstance(n, ast.For) and astq.is_name(n.target, "idx")]
-        ok = len(lp) == 1 and astq.eq_text(lp[0].iter, "range(left_idx,min(dft_size,right_idx+1))")
-        ctx.check(ok, R, f, lp[0] if lp else MISSING(f.node), "%s: bins left_idx..right_idx (clipped to the buffer) are filled" % name, "bin loop is %s" % (astq.text(lp[0].iter) if lp else None))
+        for half, analytic, want_mirror in ((False, False, True), (True, False, False), (False, True, False), (True, True, False)):
+            stores = fc.bin_stores(prog, f, {"half": half, "self._analytic": analytic})
+            direct = [x for x in stores if S.compare(x["index"], B, domain={})["verdict"] == "equal"]
+            mirror = [x for x in stores if S.compare(x["index"], S.neg(B), domain={})["verdict"] == "equal"]
+            other = [x for x in stores if x not in direct and x not in mirror]
+            tag = "%s (half=%s, analytic=%s)" % (name, half, analytic)
+            ctx.check(len(direct) >= 1 and not other, R, f, stores[0]["stmt"] if stores else f.node, "%s: bin b is stored at index b" % tag,
+                      "%s: stores at %s" % (tag, [S.show(x["index"])[:40] for x in other]))
+            ctx.check(bool(mirror) == want_mirror, R, f, (mirror or direct or stores)[0]["stmt"] if stores else f.node,
+                      "%s: negative frequencies are filled iff the full spectrum of a real bank is requested" % tag,
+                      "%s: the mirrored store res[-b] is %s" % (tag, "present" if mirror else "missing"))
+            if mirror and direct:
+                from .c05 import _cond_equal
+                ok = _cond_equal(fc.piecewise(direct), fc.piecewise(mirror))
+                ctx.check(ok, R, f, mirror[0]["stmt"], "%s: the mirrored bin gets the same value as the direct bin (real, even response)" % tag,
+                          "%s stores %s at b but %s at -b" % (tag, S.show(fc.piecewise(direct))[:100], S.show(fc.piecewise(mirror))[:100]))
+        stores = fc.bin_stores(prog, f, {"half": False})
+        rg = stores[0]["range"] if stores else None
+        w = S.sym(f.params[2])
+        V = S.sym("self._vertices")
+        fi = S.sym(f.params[1])
+        lo = S.call("int", S.call("ceil", S.truediv(S.mul(w, S.call("getitem", V, fi)), S.sym("self._rate"))))
+        hi = S.call("int", S.truediv(S.mul(w, S.call("getitem", V, S.add(fi, S.lift(2)))), S.sym("self._rate")))
+        ok = rg is not None and cc.is_call(rg, "range") and len(rg.args) == 3 and S.compare(rg.args[1], lo, domain={})["verdict"] == "equal" and \
+            S.compare(rg.args[2], S.emin(w, S.add(hi, S.ONE)), domain={})["verdict"] == "equal"
+        ctx.check(ok, R, f, stores[0]["loop"] if stores else f.node, "%s: bins ceil(width l / rate) .. floor(width r / rate) (clipped to the buffer) are filled" % name,
+                  "bin loop is %s" % (S.show(rg)[:140] if rg is not None else None))
 
 
 def purity(ctx, R="R-C06-pure"):
